@@ -296,9 +296,9 @@ MANIFEST_TEXT = {
         "technique": "Lean 4 theorems on executable models of template rendering, CRLF replacement and the divider protocol + differential correspondence with real processes (cat/replay/capture shells, real bash) + direct byte/exit-code oracles",
     },
     "C17": {
-        "text": "Machine-checked for all values: humantime's parse_duration reads back exactly what format_duration writes for every Duration (secs < 2^64, nanos < 10^9): no error, overflow or panic (C17_duration_roundtrip); the JSON-quoted form written for environment values / non-plain names and paths is a complete double-quoted YAML scalar with exactly the original characters, also in front of arbitrary following text (C17_quote_roundtrip, C17_quoted_scalar_in_context). For whole configurations the statement parseFlow(toOneLiner c) = c is proved on concrete instances only (C17_one_liner_example: all 8 keys, 2^64-1 s, quotes/backslash/braces/#/control/non-ASCII) and otherwise CHECKED, not proved: every subset of keys, an 82-string alphabet in every string position and all name x value pairs, random configs through the real to_yaml_one_liner + serde_yaml (direct oracle) with the model agreeing byte for byte on rendering and on parsing. The real code VIOLATES the property for strings containing U+007F, U+0080-9F, U+FFFE/FFFF (unreadable), U+0085/2028/2029 (folded/rejected) and for environment names over 1024 bytes (C17_fails_on_unreadable_char, C17_fails_on_long_name; oracle classes C17:not-yaml-readable, C17:line-break-char, C17:long-key). Front-matter and the code-fence embedding are oracle-only.",
+        "text": "Machine-checked for all values: humantime's parse_duration reads back exactly what format_duration writes for every Duration (C17_duration_roundtrip: no error, overflow or panic); the quoted form written by yaml_quoted (JSON quoting + \\uXXXX for DEL, C1, U+2028/2029, U+FFFE/FFFF) is a complete double-quoted YAML scalar with exactly the original characters, also in front of arbitrary following text (C17_quote_roundtrip, C17_quoted_scalar_in_context); the flow parser (reader check, line breaks, key/value scanning, nested mapping, 1024-byte key rule) reads back any rendered list of key: value pieces whose plain scalars are tokens (C17_rendered_ast_reads_back); and parseFlow(toOneLiner c) = c for every configuration over output_stream, keep_crlf, timeout, detached, strip_ansi_escaping (C17_one_liner_scalars). For skip_document_code, wait and environment the full statement is proved on concrete instances only (C17_one_liner_example, C17_one_liner_unreadable_chars) and otherwise CHECKED: every subset of keys, an 82-string alphabet in every string position and all name x value pairs, random configs through the real to_yaml_one_liner + serde_yaml (direct oracle) with the model agreeing byte for byte on rendering and on parsing. Open findings: environment names over 1024 bytes do not read back (C17_fails_on_long_name, C17:long-key); a total_timeout of 900 whole seconds is not serialised in front-matter (C17:default-total-timeout-not-serialised). Front-matter and the code-fence embedding are oracle-only.",
         "design_ref": "DESIGN.md §6 C17",
-        "note": "Trusted: kernel + axioms, harness, serde_yaml/libyaml/serde_json/humantime as reference. Partial: no general theorem for whole configurations. A total_timeout whose whole seconds are 900 is not serialised (None comes back; effective value after layering is 900 s again, a sub-second part is lost: class C17:default-total-timeout-not-serialised). Defect repaired earlier by fix: ccd71db (unescaped quotes/backslashes).",
+        "note": "Trusted: kernel + axioms, harness, serde_yaml/libyaml/serde_json/humantime as reference. Partial: the general theorem for skip code / wait / environment is reduced to four listed lemmas (see Props/C17.lean) but not proved. Defects repaired by fix: ccd71db (unescaped quotes/backslashes), d9da776 (characters YAML cannot read back).",
         "technique": "Lean 4 theorems on executable models of humantime and of the one-liner renderer / flow-YAML subset + differential correspondence with serde_yaml + direct round-trip oracle on the real code",
     },
     "C12": {
@@ -364,7 +364,7 @@ MANIFEST_TEXT = {
 }
 
 # properties whose machinery is merged but being brought up to date with fix commits: not claimed yet
-PENDING = {"C13", "C17", "C08"}
+PENDING = {"C13", "C08"}
 
 WIP = "not yet claimed: model, theorems and correspondence for this property are still being built (see DESIGN.md §11); nothing is asserted about it"
 NOT_APPLICABLE = [{"property_id": "C%02d" % i, "reason": WIP} for i in range(1, 21) if "C%02d" % i not in PROPS or "C%02d" % i in PENDING]
